@@ -669,6 +669,16 @@ func (s *Store) Flush() error {
 	vhook.Point("flush.stamped")
 	if !s.outstandingWork() {
 		vhook.Point("flush.noWork")
+		// A writer may have registered for the flush notice after the flush
+		// that wrote its data had already completed. There is nothing left to
+		// flush for it, so release it now; otherwise it waits forever, since
+		// later flushes find no work either.
+		s.rateLk.Lock()
+		if s.flushNotice != nil {
+			close(s.flushNotice)
+			s.flushNotice = nil
+		}
+		s.rateLk.Unlock()
 		return nil
 	}
 
